@@ -324,6 +324,17 @@ twin, _replay_twin = adopt_twin('twin.tC19', FINDING_PATTERNS)
 
 def replay(unit, name, model):
     """native replay of a solver model on the real classes (props/replay_misc.py)"""
+    if 'wait_requested_during_notification' in name:
+        # the canonical history: one observer asks again from inside its callback; the way the outcome comes about follows the unit
+        from twin import tC19
+        tail = {'_timeout_expired': [tC19.E_TO], 'processEnded': [tC19.EXITS[0]]}.get(unit.split('/', 1)[1].split('@')[0],
+                                                                                     [tC19.E_CONN, tC19.E_CTL, tC19.E_B100])
+        h = {'scenario': tC19.scenario(1), 'events': [tC19.E_LISTEN, ['when_re']] + tail}
+        try:
+            v = [x for x in tC19.replay_history(h) if 'never_fired' in x.get('key', '')]
+        except Exception as e:
+            return {'reproduced': False, 'what': repr(e)}
+        return {'reproduced': bool(v), 'history': h, 'what': v[0]['what'] if v else 'every hand-out fired on the real TorProcessProtocol'}
     from props import replay_misc
     return replay_misc.replay(unit, name, model)
 
